@@ -517,9 +517,71 @@ def link_cases():
 
 
 # --------------------------------------------------------------------------------------- running
+def pat(n, k=7):
+    return bytes((i * k + i // 251) % 251 for i in range(n))
+
+
+def env_cases():
+    """The receiver's environment as a script (harness `sink ... ENV`), a fixed part of every run:
+    * st_blksize of the file being written: 0, 1, 512, 4096, BUFSIZ-1, BUFSIZ, BUFSIZ+1, 9216, 12288, 20480, 65536, 1 MiB
+      (ext4/xfs/tmpfs 4096, ZFS 512-byte steps, NFS/Lustre 64 KiB..1 MiB) x file sizes at and around the resulting
+      transfer buffer, with and without a write fault -- full model correspondence, bp->cnt = roundup(blksize, BUFSIZ);
+    * read(2) delivering at most 1, 2, 7, 4096, BUFSIZ-1 bytes at a time, and ONE short read at every read index of a rich
+      stream -- the result must be what it is with whole reads (full model correspondence);
+    * read(2) interrupted (EINTR, once) at every read index of that stream, and followed by end of input -- oracle only:
+      no crash, no sanitizer report, no hang, nothing outside DEST, and -- unless the receiver ended the copy or sent
+      an error record -- every file intact."""
+    B = pcp.BUFSIZ
+    cs = []
+    for blk in (0, 1, 512, 4096, B - 1, B, B + 1, 9216, 12288, 20480, 65536, 1 << 20):
+        eff = ((blk + B - 1) // B) * B or B
+        sizes = sorted(set(n for n in (blk + 1, eff - 1, eff, eff + 1, 2 * eff + 5, 3 * B + 1) if 0 < n <= 70000)) or [3 * B + 1]
+        if blk >= 65536:
+            sizes = [B + 1, 70000] if blk > 65536 else [65535, 65537]
+        for n in sizes:
+            d = pat(n)
+            cs.append(C(b"C0644 %d f\n" % n + d + b"\0" + AFTER, env="blk=%d" % blk))
+        n = 2 * eff + 5 if 2 * eff + 5 <= 70000 else 70000
+        d = pat(n, 11)
+        cs.append(C(b"C0644 %d big\n" % n + d + b"\0C0644 6 small\nhello\n\0", env="blk=%d" % blk, fsz=12000,
+                    files=[(b"big", n, d), (b"small", 6, b"hello\n")]))
+    d = pat(20000, 13)
+    rich = (b"T1234567890 0 1234567891 0\nD0750 0 nd\nT1234567892 0 1234567893 0\nC0640 20000 f1\n" + d + b"\0E\n"
+            b"C0644 3 old\nxyz\0")
+    for m in (1, 2, 7, 4096, B - 1):
+        cs.append(C(rich, p=1, env="rdmax=%d" % m))
+        cs.append(C(rich, p=1, fd=1, env="rdmax=%d" % m))
+    plain = b"C0640 20000 f1\n" + d + b"\0C0644 3 g\nabc\0"
+    nreads = len(b"C0640 20000 f1\n") + 3 + 1 + len(b"C0644 3 g\n") + 1 + 1 + 1
+    for k in range(nreads + 1):
+        cs.append(C(plain, env="short=%d:1" % k))
+        cs.append(C(plain, env="eintr=%d" % k, oracle_only=True, files=[(b"f1", 20000, d), (b"g", 3, b"abc")]))
+    for k in (15, 16, 17):
+        # interrupted inside the data of a file the peer then stops sending
+        cs.append(C(b"C0640 20000 f1\n" + d[:9000], env="eintr=%d" % k, oracle_only=True))
+        cs.append(C(b"C0640 20000 f1\n" + d[:9000], fd=1, env="eintr=%d" % k, oracle_only=True))
+    return cs
+
+
 def op_line(jail, c):
-    return "sink %s /%s %s %d %d %o %d %d %s" % (jail, CWD.decode(), hx(c["dest"]), c["p"], c["y"], c["um"], c["fd"],
-                                                 c.get("fsz", 0), hx(c["stream"]))
+    return "sink %s /%s %s %d %d %o %d %d %s%s" % (jail, CWD.decode(), hx(c["dest"]), c["p"], c["y"], c["um"], c["fd"],
+                                                   c.get("fsz", 0), hx(c["stream"]),
+                                                   " " + c["env"] if c.get("env") else "")
+
+
+def env_of(c):
+    return dict(kv.split("=", 1) for kv in c["env"].split(",")) if c.get("env") else {}
+
+
+def cnt_of(c, cnt):
+    """bp->cnt as `_allocbuf` computes it from the st_blksize the (scripted) file system reports: rounded UP to a
+    multiple of BUFSIZ, BUFSIZ when it is 0 -- the write loop of `_sink` flushes only when `count == bp->cnt`, which is
+    reached only by a multiple of BUFSIZ (Props/C12 `reader_in_bounds`, hypothesis `CntOk`)"""
+    e = env_of(c)
+    if "blk" not in e:
+        return cnt
+    b = int(e["blk"])
+    return ((b + pcp.BUFSIZ - 1) // pcp.BUFSIZ) * pcp.BUFSIZ or pcp.BUFSIZ
 
 
 def model_line(c, ents, cnt, var):
@@ -535,7 +597,7 @@ def model_line(c, ents, cnt, var):
             # lstat/O_NOFOLLOW: a link is something in the way -- of a directory record like a file, of a file record
             # like a directory
             toks.append(Ent(e.path, c.get("link_block", "f"), 0o777, e.mtime, b"").token())
-    return "%s %d %d %o %d %d %d %d %s %s %s %s" % (op, c["p"], c["y"], c["um"], cnt, var["rule"], var["dch"],
+    return "%s %d %d %o %d %d %d %d %s %s %s %s" % (op, c["p"], c["y"], c["um"], cnt_of(c, cnt), var["rule"], var["dch"],
                                                     c.get("fsz", 0), hx(CWD), hx(c["dest"]), hx(c["stream"]), " ".join(toks))
 
 
@@ -567,6 +629,9 @@ def case_json(c):
     if c.get("links"):
         return dict(_case_json(c), links=[[a.decode("latin-1"), b.decode("latin-1")] for a, b in c["links"]],
                     oracle_only=bool(c.get("oracle_only")), link_block=c.get("link_block", "f"))
+    if c.get("env"):
+        return dict(_case_json(c), environment=c["env"], oracle_only=bool(c.get("oracle_only")),
+                    files_hex=[[n.decode("latin-1"), sz, d.hex()] for n, sz, d in c["files"]] if c.get("files") else None)
     return _case_json(c)
 
 
@@ -775,6 +840,17 @@ def judge(ctx, cases, jails, ents_l, answers, crashes, mlines, t0, cov, dist, di
             dist["write_fault_cases"] = dist.get("write_fault_cases", 0) + 1
             for fsig, fwhat in fault_oracle(c, replies, snaps[k]):
                 ctx.offender(fsig, fwhat, cj)
+        # an interrupted read may END the copy (the receiver of the code as found treats any failed read as the end of its
+        # input: the sender then misses a reply and knows), it must not be PAPERED OVER: when every record and every file
+        # was acknowledged and no error record sent, every file must be what was sent
+        if c.get("env") and "eintr" in c["env"] and c.get("files") and not any(r.startswith("E:") for r in replies) \
+                and len(replies) >= 1 + 2 * len(c["files"]):
+            for nm, n, data in c["files"]:
+                r = snaps[k].get(b"o/w/dest/" + nm)
+                if r is None or r["kind"] != "f" or r["data"] != data:
+                    ctx.offender("interrupted-read:silent-damage", "a read(2) of the receiver was interrupted (EINTR); no "
+                                 "error record was sent, yet %r is not what was sent" % nm, cj)
+                    break
         if any(not (r == "A" or r.startswith("E:")) for r in replies) or "E:unterminated" in replies:
             ctx.offender("reply-garbled", "the reply stream is not a sequence of acknowledgements and error records: %s"
                          % ",".join(replies[:20]), cj)
@@ -975,7 +1051,9 @@ def run(ctx):
         dist["systematic_cases"] = len(sysc)
         lc = link_cases()
         dist["symlink_cases_pinned"] = len(lc)
-        cases = list(CORPUS) + sysc + lc
+        ec = env_cases()
+        dist["environment_cases_pinned"] = len(ec)
+        cases = list(CORPUS) + sysc + lc + ec
         if ctx.replay:
             import json
             rc = json.load(open(ctx.replay)).get("case", {})
@@ -985,7 +1063,10 @@ def run(ctx):
                                   prepop=rc["prepopulated"], destmode=int(rc["destmode"], 8),
                                   fsz=rc.get("file_size_limit", 0), bigold=rc.get("bigold", False),
                                   links=[(a.encode("latin-1"), b.encode("latin-1")) for a, b in rc["links"]] if rc.get("links") else None,
-                                  oracle_only=rc.get("oracle_only", False), link_block=rc.get("link_block", "f")))
+                                  oracle_only=rc.get("oracle_only", False), link_block=rc.get("link_block", "f"),
+                                  env=rc.get("environment"),
+                                  files=[(a.encode("latin-1"), n, bytes.fromhex(h)) for a, n, h in rc["files_hex"]]
+                                  if rc.get("files_hex") else None))
         cases += [gen_case(rng) for _ in range(n)]
         import random
         rng2 = random.Random(ctx.seed * 7919 + 12)       # own stream: the cases above stay what they were
